@@ -27,6 +27,8 @@ func checkC09(p *Prog, r *Report) {
 	grantGuards(p, ls, r, "R3", bindMgr)
 	r.Rule("R4", "binding ids are results of an atomic increment of the manager's counter")
 	idRule(p, r, "R4", bindMgr)
+	r.Rule("R12", "the id counter only grows: every modification is sync/atomic Add with a positive constant — an id handed back, reset or recomputed is handed out twice")
+	monotoneCounterRule(p, ls, r, "R12", F("BindingManager.bindingNum"))
 	r.Rule("R5", "the per-device listing filters on the peer identity (SKI of the client feature's device), the per-feature listing on the server feature address")
 	listingRule(p, r, "R5", bindMgr)
 	hasBindingRule(p, r, "R6")
